@@ -6,6 +6,8 @@ mod timing;
 mod tape;
 mod input;
 mod ports;
+mod files;
+mod screen;
 
 fn main() {
     let mut it = std::env::args().skip(1);
@@ -21,6 +23,7 @@ fn main() {
         "tape" => tape::run(&args),
         "input" => input::run(&args),
         "ports" => ports::run(&args),
+        "screen" => screen::run(&args),
         "portsdbg" => ports::debug(),
         _ => {
             eprintln!("unknown sub-command {cmd:?}");
